@@ -25,12 +25,14 @@ operation of the Python code is a helper that can return `py …`:
 dict lookups (`KeyError`), attribute reads on objects that may lack the attribute
 (`_attr_name`, `_tx_class`, `nodes` of a `RuleCrossRef`: `AttributeError`),
 `'\\' in value` on a non-string (`TypeError`), `re.compile` / `codecs.decode`
-(`re.error` / `UnicodeDecodeError`, both caught by the code), following rule
+(`re.error`, `OverflowError`, `RecursionError`, `ValueError`, … / `UnicodeDecodeError`,
+all caught by the code), following rule
 aliases (`RecursionError` when the fuel runs out), `assert` (`AssertionError`).
 The property theorems (Props/C23.lean) show that no `py …` other than the
 documented `import`-in-a-string assertion ever leaves `compile`.
 
-Abstractions (stated in notes/C23.md): whether a regular expression compiles and
+Abstractions (stated in notes/C23.md): whether a regular expression compiles (and
+which exception class the regex engine raises when it does not) and
 whether the escapes of a string decode are inputs (flags on the literal, computed
 by Python's `re` / `codecs` in the harness); an RREL expression inside a link is
 opaque (its visitor has no failing operation on a parse tree); multiplicities,
@@ -48,6 +50,8 @@ namespace GramLoad
 inductive PyExc
   | keyError | attributeError | typeError | indexError | recursionError
   | assertionError | unicodeDecodeError | reError
+  | overflowError | valueError
+  | other           -- any further subclass of `Exception`
 deriving DecidableEq, Repr
 
 inductive Exc
@@ -67,10 +71,14 @@ def Exc.isTx : Exc → Bool
 
 /-! ## the parse tree of the grammar language (`lang.py:textx_model`) -/
 
-/-- `simple_match`; the flag is the answer of `codecs.decode` / `re.compile` -/
+/-- `simple_match`; `decodes` is the answer of `codecs.decode`, `raises` the answer
+of `re.compile`: `none` = the pattern compiles, `some e` = the regex engine refuses
+it with the exception `e`.  The engine does not use `re.error` for every refusal:
+a repetition count beyond its limit is an `OverflowError`, a pattern nested deeper
+than the interpreter stack a `RecursionError`, incompatible flags a `ValueError`. -/
 inductive Lit
   | str (decodes : Bool)
-  | re (compiles : Bool)
+  | re (raises : Option PyExc)
 deriving DecidableEq, Repr
 
 /-- one item of `repeat_modifiers` -/
@@ -190,8 +198,10 @@ def baseNames : List String := baseTypeNames ++ ["OBJECT"]
 
 /-! ## partial operations of the Python code -/
 
-/-- `re.compile` -/
-def reCompile (ok : Bool) : M Unit := if ok then pure () else throw (.py .reError)
+/-- `re.compile` (`regex.compile()` of Arpeggio's `RegExMatch`) -/
+def reCompile : Option PyExc → M Unit
+  | none => pure ()
+  | some e => throw (.py e)
 
 /-- `decode_escapes` (`codecs.decode(…, "unicode-escape")`) -/
 def decodeEscapes (ok : Bool) : M Unit := if ok then pure () else throw (.py .unicodeDecodeError)
@@ -233,15 +243,16 @@ def pyLen (v : PVal) : M Nat :=
 /-! ## first pass: literals, modifiers, rule parameters -/
 
 /-- `visit_str_match` / `visit_re_match`: a failing `decode_escapes` (`except
-ValueError`) or `regex.compile()` (`except Exception`) is reported as
+ValueError`) or `regex.compile()` (`except Exception`: whatever exception class the
+regex engine uses, every `PyExc` is a subclass of `Exception`) is reported as
 `TextXSyntaxError`. -/
 def visitLit : Lit → M Unit
   | .str ok =>
       match decodeEscapes ok with
       | .ok _ => pure ()
       | .error _ => throw .syntax
-  | .re ok =>
-      match reCompile ok with
+  | .re r =>
+      match reCompile r with
       | .ok _ => pure ()
       | .error _ => throw .syntax
 
